@@ -75,11 +75,14 @@ TAcquire == /\ Is("Acquire")
             /\ owner' = Put(owner, Ev.m, [t |-> Ev.t, name |-> Ev.name])
             /\ UNCHANGED <<forkVC, endVC, last, relVC, shrVC, scen>>
 TRelease == /\ Is("Release")
-            /\ relVC' = Put(relVC, Ev.m, VCof(Ev.t))
+            \* (an unlock of a mutex nobody is known to hold, by a thread measured not to own it, orders nothing)
+            /\ relVC' = IF Field("measured", FALSE) /\ ~Ev.owned /\ Ev.m \notin DOMAIN owner THEN relVC
+                        ELSE Put(relVC, Ev.m, VCof(Ev.t))
             /\ vc' = Put(vc, Ev.t, Tick(Ev.t, VCof(Ev.t)))
-            /\ ReportAt(IF Ev.m \in DOMAIN owner /\ owner[Ev.m].t = Ev.t THEN {}
-                        ELSE IF Ev.m \in DOMAIN owner THEN {"unlockByNonOwner"} ELSE {"unlockOfUnlockedMutex"},
-                        Ev.name, {})
+            /\ LET recorded == Ev.m \in DOMAIN owner /\ owner[Ev.m].t = Ev.t        \* by the recorded lock events
+                   ok == IF Field("measured", FALSE) THEN Ev.owned ELSE recorded   \* by the measured owner, if there is one
+               IN  ReportAt(IF ok THEN {} ELSE IF Ev.m \in DOMAIN owner THEN {"unlockByNonOwner"}
+                                               ELSE {"unlockOfUnlockedMutex"}, Ev.name, {})
             /\ owner' = IF Ev.m \in DOMAIN owner THEN Drop(owner, Ev.m) ELSE owner
             /\ UNCHANGED <<forkVC, endVC, last, shrVC, scen>>
 TAcquireShared == /\ Is("AcquireShared")
